@@ -591,6 +591,7 @@ def C12(tier):
                             "NodeSpacing in [1,64] (zero heights so that route points lie on the bands)" % (N, M)),
            crossing_kernel_ob(tier),
            wmedian_kernel_ob(tier),
+           wmedian_dag_ob(tier),
            layout_ob("layout-crossings-70-layers", "Harness_E_C12", many_layer_shapes(), {"P2": [0, 1], "P4": [4, 1]},
                      consts={"P1": 1, "P5": 2, "SZ": 0, "NSFIX": 10, "LSFIX": 1}, loop=8192, depth=300, enctimeout=200, validate_cubes=1,
                      bounds="two graphs with 70 layers (two parallel 70-node paths, a crossing edge pair at layers 65/66 or 66/67, a third node in one layer): the "
@@ -639,6 +640,54 @@ def wmedian_kernel_ob(tier):
     return dict(name="wmedian-kernel", pkg="internal/phase3", func="Harness_P3_Layered", consts={}, cubes=cubes, enctimeout=200, qtimeout=60, loop=256, validate_cubes=4,
                 bounds="real execWeightedMedian on arbitrary layered graphs (2-4 layers of 1-3 nodes, sampled edge sets, node-list rotations) as cubes; no symbolic dimension: "
                        "the engine is used as an exhaustive executor of the real code here (queries are decided by the simplifier)")
+
+
+def dag_layered_cubes(n, m, step):
+    """layered form (longest-path layering from the sources, long edges split by helper nodes) of every step-th connected DAG on n nodes with m edges
+    (edges i<j of a topological numbering): layers of up to n nodes, the layered graphs Layout hands to phase 3 for n-node inputs"""
+    import itertools
+    pairs = [(i, j) for i in range(n) for j in range(i + 1, n)]
+    out = []
+    for sub in list(itertools.combinations(pairs, m))[::step]:
+        if len({v for e in sub for v in e}) != n or not is_connected(list(sub), n):
+            continue
+        lay = [0] * n
+        for i in range(n):
+            for (a, b) in sub:
+                if b == i:
+                    lay[i] = max(lay[i], lay[a] + 1)
+        L = max(lay) + 1
+        if L > 4:
+            continue
+        layers = [[] for _ in range(L)]
+        for v in range(n):
+            layers[lay[v]].append(("n", v))
+        edges = []
+        for k, (a, b) in enumerate(sub):
+            prev = ("n", a)
+            for l in range(lay[a] + 1, lay[b]):
+                h = ("h", k, l)
+                layers[l].append(h)
+                edges.append((l - 1, prev, h))
+                prev = h
+            edges.append((lay[b] - 1, prev, ("n", b)))
+        if max(len(x) for x in layers) > 6:
+            continue
+        c = {"L": L, "M": len(edges)}
+        for l, ns in enumerate(layers):
+            c["k[%d]" % l] = len(ns)
+        for j, (l, a, b) in enumerate(edges):
+            c["el[%d]" % j], c["ea[%d]" % j], c["eb[%d]" % j] = l, layers[l].index(a), layers[l + 1].index(b)
+        out.append(c)
+    return out
+
+
+def wmedian_dag_ob(tier):
+    q = tier == "quick"
+    cubes = [dict(c, ROT=r) for c in dag_layered_cubes(6, 9, 5 if q else 1) for r in ((0, 1) if q else (0, 1, 2))]
+    return dict(name="wmedian-kernel-six-node-dags", pkg="internal/phase3", func="Harness_P3_Layered", consts={}, cubes=cubes, enctimeout=200, qtimeout=60, loop=512, validate_cubes=4,
+                bounds="real execWeightedMedian on the layered form (helper nodes for long edges, <= 4 layers of <= 6 nodes) of %s connected 6-node DAG with 9 edges x %d rotations "
+                       "of the initial node list; no symbolic dimension (exhaustive execution, queries decided by the simplifier)" % (nm(q, "every 5th", "every"), nm(q, 2, 3)))
 
 
 def many_layer_shapes():
